@@ -101,7 +101,9 @@ def swtpm_log(draw, messages):
         for _ in range(draw(st.sampled_from([0, 0, 1, 2]))):
             ctrl()
             ctrl_between += i > 0
-        emit(f"SWTPM_IO_{'Read' if i % 2 == 0 else 'Write'}: length {len(m)}{nl}")
+        # the header's "length N" is commentary: what a section carries is its pairs (one header in six disagrees or has none)
+        shown = draw(st.sampled_from([f": length {len(m)}"] * 5 + [f": length {max(0, len(m) - 1)}", f": length {len(m) + 2}", ": length 0", "", ": len"]))
+        emit(f"SWTPM_IO_{'Read' if i % 2 == 0 else 'Write'}{shown}{nl}")
         payload(m, True)
     for _ in range(draw(st.sampled_from([0, 0, 1]))):
         ctrl()
@@ -142,7 +144,7 @@ def swtpm_reference(tokens):
 
 
 # ------------------------------------------------------------------------------------------------ pcapng
-def _frame(payload, ethernet):
+def _frame(payload, ethernet, macs=(b"\x00" * 6, b"\x00" * 6)):
     import dpkt
 
     tcp = dpkt.tcp.TCP(sport=50000, dport=2321, seq=1, data=payload)
@@ -150,7 +152,7 @@ def _frame(payload, ethernet):
     ip.len = len(ip)
     if not ethernet:
         return bytes(ip)
-    return bytes(dpkt.ethernet.Ethernet(src=b"\x00" * 6, dst=b"\x00" * 6, type=dpkt.ethernet.ETH_TYPE_IP, data=ip))
+    return bytes(dpkt.ethernet.Ethernet(src=macs[0], dst=macs[1], type=dpkt.ethernet.ETH_TYPE_IP, data=ip))
 
 
 @st.composite
@@ -161,8 +163,11 @@ def pcapng_capture(draw, messages):
 
     ethernet = draw(st.booleans())
     f = io.BytesIO()
-    w = dpkt.pcapng.Writer(f, linktype=dpkt.pcap.DLT_EN10MB if ethernet else dpkt.pcap.DLT_RAW)
-    noise = {"runts": 0, "trailers": 0, "ethernet": ethernet}
+    # raw-IP captures declare LINKTYPE_IPV4 (228, what tpm2-tss' tcti-pcap writes) or LINKTYPE_RAW
+    w = dpkt.pcapng.Writer(f, linktype=dpkt.pcap.DLT_EN10MB if ethernet else draw(st.sampled_from([228, dpkt.pcap.DLT_RAW])))
+    # loopback frames have all-zero addresses; a capture from a network interface has any (the two directions swap them)
+    macs = (b"\x00" * 6, b"\x00" * 6) if not ethernet or draw(st.booleans()) else (draw(st.binary(min_size=6, max_size=6)), draw(st.binary(min_size=6, max_size=6)))
+    noise = {"runts": 0, "trailers": 0, "ethernet": ethernet, "mac_addresses": macs[0] != b"\x00" * 6}
     payloads = []  # every TCP payload written, in order (runts included)
     ts = 1.0
     for i, m in enumerate(messages):
@@ -172,7 +177,7 @@ def pcapng_capture(draw, messages):
             if n >= 6 and draw(st.booleans()):
                 # a runt whose own "size field" claims exactly its length (must be skipped all the same)
                 runt = b"\x80\x01" + n.to_bytes(4, "big") + runt[6:]
-            w.writepkt(_frame(runt, ethernet), ts=ts)
+            w.writepkt(_frame(runt, ethernet, macs), ts=ts)
             payloads.append(runt)
             ts += 0.001
             noise["runts"] += 1
@@ -180,7 +185,7 @@ def pcapng_capture(draw, messages):
         if len(m) >= 10 and draw(st.integers(0, 2)) == 0:
             payload = m + draw(st.one_of(st.sampled_from([b"\x00\x00\x00\x00", b"\x00\x00\x00\x01"]), st.binary(min_size=1, max_size=8)))
             noise["trailers"] += 1
-        w.writepkt(_frame(payload, ethernet), ts=ts)
+        w.writepkt(_frame(payload, ethernet, macs if i % 2 == 0 else macs[::-1]), ts=ts)
         payloads.append(payload)
         ts += 0.001
     noise["carried"] = b"".join(pcapng_trim(p) for p in payloads)
